@@ -565,10 +565,13 @@ func (b *RefinementBuilder) NewValue() (ret Value) {
 					case ty.IsMapType():
 						return MapValEmpty(ty.ElementType())
 					}
-				} else if ty.IsListType() {
+				} else if ty.IsListType() && knownLen <= maxKnownLenOfUnknownList {
 					// If we know the length of the list then we can
 					// create a known list with unknown elements instead
-					// of a wholly-unknown list.
+					// of a wholly-unknown list. (For very long lists the
+					// refined unknown value says the same thing in
+					// constant space, so we keep that instead: the length
+					// can come from untrusted input, e.g. when decoding.)
 					elems := make([]Value, knownLen)
 					unk := UnknownVal(ty.ElementType())
 					for i := range elems {
@@ -593,6 +596,11 @@ func (b *RefinementBuilder) NewValue() (ret Value) {
 		v:  &unknownType{refinement: b.wip.copy()},
 	}
 }
+
+// maxKnownLenOfUnknownList is the longest list that [RefinementBuilder.NewValue]
+// will materialize as a known list of unknown elements when the refinements
+// pin down only its length.
+const maxKnownLenOfUnknownList = 1024
 
 // unknownValRefinment is an interface pretending to be a sum type representing
 // the different kinds of unknown value refinements we support for different
